@@ -393,7 +393,11 @@ def _resolve_import(rule, target):
 
     # adjust relative URI references
     log.info('@import: Adjusting paths for %r' % rule.href, neverraise=True)
-    replaceUrls(importedSheet, Replacer(rule.href), ignoreImportRules=True)
+    replacer = Replacer(rule.href)
+    replaceUrls(importedSheet, replacer, ignoreImportRules=True)
+    for kept in importedSheet:
+        if kept.type == kept.IMPORT_RULE:
+            _rebase_import(kept, replacer)
 
     try:
         media_proxy = _check_media_proxy(rule, importedSheet)
@@ -412,6 +416,21 @@ def _resolve_import(rule, target):
 
     if media_proxy:
         target.add(media_proxy)
+
+
+def _rebase_import(rule, replacer):
+    """
+    Adjust the href of an @import `rule` which is kept, the sheet it
+    refers to stays as it is.
+    """
+    parent, sheet, found = rule.parentStyleSheet, rule.styleSheet, rule.hrefFound
+    # without a parent sheet nothing is loaded
+    rule._parentStyleSheet = None
+    try:
+        rule.href = replacer(rule.href)
+    finally:
+        rule._parentStyleSheet = parent
+        rule._styleSheet, rule.hrefFound = sheet, found
 
 
 def _check_media_proxy(rule, importedSheet):
